@@ -57,6 +57,25 @@ def z3abs(a):
     return z3.If(a >= 0, a, -a)
 
 
+FLOAT_EXACT_MAX_EXP = 11   # doubles modelled exactly for |v| < 2**(53+11) = 2**64
+
+
+def int_of_float_of_int(v):
+    """int(float(v)) for an integer v: IEEE-754 binary64 round-to-nearest-even, encoded exactly with
+    integer arithmetic for |v| < 2**64 (stated bound; callers must exclude larger magnitudes).
+    For 2**(52+k) <= |v| < 2**(53+k) the spacing of doubles is 2**k."""
+    a = z3abs(v)
+    r = a
+    for k in range(FLOAT_EXACT_MAX_EXP, 0, -1):
+        s_ = 2 ** k
+        q, rem = a / s_, a % s_
+        half = s_ // 2
+        up = z3.Or(rem > half, z3.And(rem == half, q % 2 == 1))   # ties to even
+        rounded = z3.If(up, (q + 1) * s_, q * s_)
+        r = z3.If(a >= 2 ** (52 + k), rounded, r)
+    return z3.If(v >= 0, r, -r)
+
+
 class Translator:
     def __init__(self, args: List[Val], env: Dict[str, Val] | None = None, handled=()):
         self.args = args
@@ -64,6 +83,7 @@ class Translator:
         self.assumptions: List[str] = []
         self.handled = set(handled)          # exception classes the callers catch and answer
         self.handled_conds: List[z3.BoolRef] = []   # conditions under which such an exception is raised
+        self.domain: List[z3.BoolRef] = []          # stated bounds of the model (obligation restricted to them)
 
     def zde(self, cond):
         """ZeroDivisionError under `cond`: a raise, unless the callers handle it (then the region is
@@ -259,6 +279,14 @@ class Translator:
                 if k1 == k2 == "int":
                     self.assumptions.append("int(float(a)/float(b)) modelled as exact truncation: |a|,|b| < 2**53")
                     return ("int", trunc_div(a, b), _or(e1, e2, self.zde(z3_eq(b, z3.IntVal(0)))))
+            is_float = isinstance(a0, ast.Call) and getattr(a0.func, "id", None) == "float" and len(a0.args) == 1
+            if is_float:
+                # int(float(x)): x int or decimal numeral string; binary64 rounding modelled exactly
+                k0, t0, e0 = self.tr(ast.Call(func=ast.Name(id="int"), args=[a0.args[0]], keywords=[]))
+                self.assumptions.append("int(float(x)) modelled as exact binary64 round-to-nearest-even for |x| < 2**64; "
+                                        "float() also accepts non-integer notation (1e3, 1.5, inf): outside the numeral domain")
+                self.domain.append(z3abs(t0) < 2 ** (53 + FLOAT_EXACT_MAX_EXP))
+                return ("int", int_of_float_of_int(t0), e0)
             k, t, e = self.tr(a0)
             if k == "int":
                 return (k, t, e)
@@ -303,7 +331,8 @@ def translate_callable(fn_node: ast.AST, args: List[Val], handled=()):
     sequence of asserts/assignments ending in return (try/except: first branch + 'raises' on ValueError)."""
     tr = Translator(args, handled=handled)
     res = _translate_callable(tr, fn_node)
-    return res, tr.assumptions, tr.handled_conds
+    # a domain bound D is passed on as "not D is handled elsewhere": the obligation is restricted to D
+    return res, tr.assumptions, tr.handled_conds + [z3.Not(d) for d in tr.domain]
 
 
 def _translate_callable(tr, fn_node):
